@@ -183,7 +183,7 @@ func (e *Engine) smtText(o *Obligation, wantModel bool) string {
 	}
 	var gs []string
 	for g := range e.d.axioms {
-		if g == "core" || o.Groups[g] {
+		if g == "core" || o.Groups[g] || (g == "bytes_assoc" && o.Groups["bytes"] && !o.Groups["noassoc"]) {
 			gs = append(gs, g)
 		}
 	}
@@ -495,5 +495,40 @@ func (x *Exec) feasible(st *State) bool {
 	os.WriteFile(file, []byte(txt), 0644)
 	defer os.Remove(file)
 	status, _ := runSolver(context.Background(), solvers[1], file, 2)
+	return status != "unsat"
+}
+
+// feasibleCond: can cond hold on this path? Quantified hypotheses and axioms are kept (the byte-string algebra is needed to
+// evaluate reads of symbolic wire data); "unknown" counts as feasible.
+func (x *Exec) feasibleCond(st *State, cond string) bool {
+	cmds := append(append([]string{}, st.cmds...), "(assert "+cond+")")
+	gs := map[string]bool{}
+	for g := range st.groups {
+		gs[g] = true
+	}
+	if x.c != nil {
+		for _, g := range x.c.Groups {
+			gs[g] = true
+		}
+	}
+	o := &Obligation{Name: "feasibility", Cmds: cmds, Goal: "false", Groups: gs}
+	txt := x.e.smtText(o, false)
+	if len(txt) > maxSMTSize {
+		return true
+	}
+	dir := filepath.Join(outBase(), "tmp")
+	os.MkdirAll(dir, 0755)
+	x.e.feasN++
+	file := filepath.Join(dir, fmt.Sprintf("feas_%d_%d.smt2", os.Getpid(), x.e.feasN))
+	os.WriteFile(file, []byte(txt), 0644)
+	if os.Getenv("P9VC_KEEPFEAS") == "" {
+		defer os.Remove(file)
+	}
+	t0 := time.Now()
+	status, _ := runSolver(context.Background(), solvers[0], file, 1)
+	x.feasCalls++
+	if os.Getenv("P9VC_TRACE") != "" {
+		fmt.Fprintf(os.Stderr, "feasible? %s %.2fs %.80s\n", status, time.Since(t0).Seconds(), cond)
+	}
 	return status != "unsat"
 }
